@@ -39,6 +39,9 @@ type C08Scenario struct {
 	V2       bool      `json:"v2"`
 	Select0  uint64    `json:"select0"`
 	Steps    []C08Step `json:"steps"`
+	// OneHandle: all diffs of the chain go through one open updater (as a long-running publisher
+	// does); the database is closed once at the end and must then still be the last target
+	OneHandle bool `json:"one_handle,omitempty"`
 }
 
 func drawC08(rt *rapid.T, tier string) C08Scenario {
@@ -70,6 +73,7 @@ func drawC08(rt *rapid.T, tier string) C08Scenario {
 		Select0:  rapid.Uint64().Draw(rt, "select0"),
 		Steps:    rapid.SliceOfN(step, 1, maxSteps).Draw(rt, "steps"),
 	}
+	sc.OneHandle = len(sc.Steps) > 1 && rapid.IntRange(0, 2).Draw(rt, "one_handle") == 0
 	// a share of big diffs (well over 8192 operations) whose undeliverable line, if any, comes
 	// late: all-or-nothing must hold for a diff of any size, not only for one that fits one batch
 	bigShare := 25
@@ -101,7 +105,7 @@ func summaryC08(sc C08Scenario) interface{} {
 		}
 		st = append(st, f)
 	}
-	return map[string]interface{}{"pool_records": sc.Records, "pool_subnets": sc.Nets, "v2_keys": sc.V2, "steps": st}
+	return map[string]interface{}{"pool_records": sc.Records, "pool_subnets": sc.Nets, "v2_keys": sc.V2, "steps": st, "one_open_handle": sc.OneHandle}
 }
 
 // c08File selects the lines of file i from the pool: about 2/3 of the lines, some of them twice.
@@ -190,7 +194,20 @@ func runC08(t *testing.T, sc C08Scenario, keep bool) *core.Result {
 		res.HarnessErr = "compile A: " + err.Error()
 		return res
 	}
-	res.TraceHash = fmt.Sprintf("%x/%x/%v", sc.PoolSeed, sc.Select0, sc.V2)
+	res.TraceHash = fmt.Sprintf("%x/%x/%v/%v", sc.PoolSeed, sc.Select0, sc.V2, sc.OneHandle)
+	var u *rdb.RDB // the open updater (kept across steps in one-handle chains)
+	var fi *mon.FaultyRDBI
+	defer func() {
+		if u != nil {
+			fi.Suspend = true
+			_ = u.Close()
+		}
+	}()
+	lastWant, err := dump.RDB(dbdir)
+	if err != nil {
+		res.HarnessErr = "dump: " + err.Error()
+		return res
+	}
 	for i, st := range sc.Steps {
 		next, err := preprocess(c08File(pool, st.Select), 4242)
 		if err != nil {
@@ -226,7 +243,14 @@ func runC08(t *testing.T, sc C08Scenario, keep bool) *core.Result {
 			faulty = true
 			res.Fault("undeliverable:" + st.Undeliver)
 		}
-		before, err := dump.RDB(dbdir)
+		// with one handle kept open its writes may live in its memtable only: look through that handle
+		look := func() (dump.DB, error) {
+			if u != nil {
+				return dump.Handle(fi.DBI)
+			}
+			return dump.RDB(dbdir)
+		}
+		before, err := look()
 		if err != nil {
 			res.HarnessErr = "dump: " + err.Error()
 			return res
@@ -237,23 +261,30 @@ func runC08(t *testing.T, sc C08Scenario, keep bool) *core.Result {
 			errAt = -1
 		}
 		rd := &segReader{data: []byte(text), st: C16Stream{Sizes: st.ReadSizes, ErrAt: errAt}}
-		u, err := rdb.NewUpdater(dbdir)
-		if err != nil {
-			res.HarnessErr = "NewUpdater: " + err.Error()
-			return res
+		if u == nil {
+			u, err = rdb.NewUpdater(dbdir)
+			if err != nil {
+				res.HarnessErr = "NewUpdater: " + err.Error()
+				return res
+			}
+			fi = &mon.FaultyRDBI{}
+			rdb.VerifWrapDBI(u, func(in rdb.DBI) rdb.DBI { fi.DBI = in; return fi })
 		}
-		fi := &mon.FaultyRDBI{FailAt: map[int]bool{}}
+		fi.FailAt, fi.N, fi.OnFail, fi.Suspend = map[int]bool{}, 0, nil, false
 		injected := false
 		if st.FailCall >= 0 {
 			fi.FailAt[st.FailCall] = true
 			fi.OnFail = func(call string, _ int) { injected = true; res.Fault("rocksdb-call-error:" + call) }
 		}
-		rdb.VerifWrapDBI(u, func(in rdb.DBI) rdb.DBI { fi.DBI = in; return fi })
 		aerr := u.ApplyDiff(rd, 4242)
 		fi.Suspend = true
-		if cerr := u.Close(); cerr != nil {
-			res.HarnessErr = "close: " + cerr.Error()
-			return res
+		if !sc.OneHandle {
+			cerr := u.Close()
+			u = nil
+			if cerr != nil {
+				res.HarnessErr = "close: " + cerr.Error()
+				return res
+			}
 		}
 		if rd.fired {
 			res.Fault("diff-read-error")
@@ -265,7 +296,7 @@ func runC08(t *testing.T, sc C08Scenario, keep bool) *core.Result {
 		if faulty {
 			res.Population = "faults"
 		}
-		after, err := dump.RDB(dbdir)
+		after, err := look()
 		if err != nil {
 			res.HarnessErr = "dump: " + err.Error()
 			return res
@@ -311,6 +342,27 @@ func runC08(t *testing.T, sc C08Scenario, keep bool) *core.Result {
 			res.Nontrivial = true
 		}
 		prev = next
+		lastWant = want
+	}
+	if sc.OneHandle && u != nil {
+		// the publisher shuts down: what is on disk once the database is closed (its log flushed into
+		// table files) is still the database of the last file that was delivered
+		cerr := u.Close()
+		u = nil
+		if cerr != nil {
+			res.HarnessErr = "close: " + cerr.Error()
+			return res
+		}
+		final, err := dump.RDB(dbdir)
+		if err != nil {
+			res.HarnessErr = "dump: " + err.Error()
+			return res
+		}
+		if d := dump.Diff(final, lastWant, "database after the chain, closed and opened again", "database compiled from the last delivered file"); d != "" {
+			res.Add("diff-result-wrong", "diff-result-wrong|after-close", fmt.Sprintf("chain of %d diffs through one open handle: %s", len(sc.Steps), d))
+			return res
+		}
+		res.Probe("chain_through_one_handle_closed_and_reread")
 	}
 	return res
 }
